@@ -86,7 +86,65 @@ PINDIRS = dict(
                     "ConnDirRight": "Nat", "ConnDirAll": "Nat"},
 )
 
-JOBS = {"geometry": GEOMETRY, "makepath": MAKEPATH, "sepdir": SEPDIR, "tri": TRI, "seppair": SEPPAIR, "pindirs": PINDIRS}
+# ---- comparators handed to std::set / std::sort / list::sort / the pairing heap (strict weak orders, Props/CmpTie.lean)
+def _keys(obj, lean, fields):
+    return {"%s.%s" % (obj, c): ("%s.%s" % (lean, f), t) for (c, f, t) in fields}
+
+_PIN = [("m_class_id", "classId", "Nat"), ("m_visibility_directions", "visDirs", "Nat"), ("m_x_offset", "xOff", "Rat"),
+        ("m_y_offset", "yOff", "Rat"), ("m_inside_offset", "insideOff", "Rat"), ("m_router", "router", "Nat"),
+        ("containingObjectId()", "objId", "Nat")]
+_ACT = [("type", "type", "Nat"), ("objPtr", "ptr", "Nat"), ("conn().id()", "connId", "Nat"), ("obstacle().id()", "obstId", "Nat")]
+_VID = [("objID", "objID", "Nat"), ("vn", "vn", "Nat")]
+_NODE = [("pos", "pos", "Rat"), ("v.id", "id", "Nat")]
+_CON = [("left.block.timeStamp", "blockTs", "Int"), ("timeStamp", "ts", "Int"), ("left.block", "lblock", "Nat"),
+        ("right.block", "rblock", "Nat"), ("slack()", "slack", "Rat"), ("left.id", "lid", "Int"), ("right.id", "rid", "Int")]
+_SP = [("m_index1", "i1", "Nat"), ("m_index2", "i2", "Nat")]
+_LS = [("begin", "begin_", "Rat"), ("pos", "pos", "Rat"), ("finish", "finish", "Rat"), ("shapeSide", "shapeSide", "Bool")]
+_VI = [("point.x", "px", "Rat"), ("point.y", "py", "Rat")]
+
+def _two(a, b, la, lb, fields):
+    d = _keys(a, la, fields); d.update(_keys(b, lb, fields)); return d
+
+COMPARATORS = dict(
+    ns="AdaptaVerif.Gen.Comparators",
+    out="lean/AdaptaVerif/Gen/Comparators.lean",
+    imports=["AdaptaVerif.Model.CmpKeys"],
+    opens=["AdaptaVerif.Model.CmpKeys"],
+    parts=[
+        dict(src="cola/libavoid/connectionpin.cpp", functions=["operator<"], filters={"operator<": "ShapeConnectionPin::operator<"},
+             lean_names={"operator<": "pinLt"}, types={"ShapeConnectionPin": "PinKey"}, this_params=[("self", "PinKey")],
+             paths=_two("this", "rhs", "self", "rhs", _PIN)),
+        dict(src="cola/libavoid/geomtypes.cpp", functions=["operator<"], filters={"operator<": "Point::operator<"},
+             lean_names={"operator<": "pointLt"}, this_params=[("self", "Pt")],
+             paths={"this.x": ("self.x", "Rat"), "this.y": ("self.y", "Rat")}),
+        dict(src="cola/libavoid/vertices.cpp", functions=["operator<"], filters={"operator<": "VertID::operator<"},
+             lean_names={"operator<": "vertIdLt"}, types={"VertID": "VertIdKey"}, this_params=[("self", "VertIdKey")],
+             paths=_two("this", "rhs", "self", "rhs", _VID)),
+        dict(src="cola/libavoid/actioninfo.cpp", functions=["operator<"], filters={"operator<": "ActionInfo::operator<"},
+             lean_names={"operator<": "actionLt"}, types={"ActionInfo": "ActKey"}, this_params=[("self", "ActKey")],
+             paths=_two("this", "rhs", "self", "rhs", _ACT),
+             auto_constants={n: "Nat" for n in ["ShapeMove", "ShapeAdd", "ShapeRemove", "JunctionMove", "JunctionAdd",
+                                                "JunctionRemove", "ConnChange", "ConnectionPinChange"]},
+             emit_constants=True),
+        dict(src="cola/libavoid/orthogonal.cpp", functions=["operator<"], filters={"operator<": "LineSegment::operator<"},
+             lean_names={"operator<": "lineSegmentLt"}, types={"LineSegment": "LineSegKey"}, this_params=[("self", "LineSegKey")],
+             paths=_two("this", "rhs", "self", "rhs", _LS)),
+        dict(src="cola/libavoid/orthogonal.cpp", functions=["operator()"], filters={"operator()": "CmpVertInf::operator()"},
+             lean_names={"operator()": "cmpVertInf"}, types={"VertInf": "VertInfKey"}, ptr_vals=["VertInf"],
+             paths=dict(_two("u", "v", "u", "v", _VI), u=("u.addr", "Nat"), v=("v.addr", "Nat"))),
+        dict(src="cola/libvpsc/rectangle.cpp", functions=["operator()"], filters={"operator()": "CmpNodePos::operator()"},
+             lean_names={"operator()": "cmpNodePos"}, types={"Node": "NodeKey"}, ptr_vals=["Node"],
+             paths=dict(_two("u", "v", "u", "v", _NODE), u=("u.addr", "Nat"), v=("v.addr", "Nat"))),
+        dict(src="cola/libvpsc/constraint.cpp", functions=["operator()"], filters={"operator()": "CompareConstraints::operator()"},
+             lean_names={"operator()": "compareConstraints"}, types={"Constraint": "ConKey"}, ptr_vals=["Constraint"],
+             paths=_two("l", "r", "l", "r", _CON)),
+        dict(src="cola/libcola/shapepair.cpp", functions=["operator<"], filters={"operator<": "ShapePair::operator<"},
+             lean_names={"operator<": "shapePairLt"}, types={"ShapePair": "ShapePairKey"}, this_params=[("self", "ShapePairKey")],
+             paths=_two("this", "rhs", "self", "rhs", _SP)),
+    ],
+)
+
+JOBS = {"comparators": COMPARATORS, "geometry": GEOMETRY, "makepath": MAKEPATH, "sepdir": SEPDIR, "tri": TRI, "seppair": SEPPAIR, "pindirs": PINDIRS}
 
 def regenerate(names, ROOT, REPO):
     info = {}
@@ -94,7 +152,8 @@ def regenerate(names, ROOT, REPO):
         job = JOBS[n]
         text, known = cpp2lean.run_job(job, REPO)
         changed = cpp2lean.write_if_changed(ROOT / job["out"], text)
-        info[n] = dict(functions=job["functions"], changed=changed, out=job["out"])
+        fns = job["functions"] if "functions" in job else [pt.get("lean_names", {}).get(f, f) for pt in job["parts"] for f in pt["functions"]]
+        info[n] = dict(functions=fns, changed=changed, out=job["out"])
     return info
 
 if __name__ == "__main__":
